@@ -323,6 +323,18 @@ func (api *API) mapEncodeStructFields(
 				ownKeys[keyType] = struct{}{}
 			}
 
+			// the keys that the member could write with another value of the same types (an implementation that leaves a
+			// key out this time): the decoder would read the entry of the sibling into them
+			potentialKeys := make(map[string]struct{})
+			api.collectValueKeys(fieldValue, potentialKeys)
+			for k := range potentialKeys {
+				if _, own := ownKeys[k]; !own {
+					if _, occupied := keysOfType[k]; occupied {
+						return ierrors.Errorf("failed to serialize struct field %s: key %q is used more than once in the map form of the struct", sField.name, k)
+					}
+				}
+			}
+
 			for _, k := range castedEleOut.Keys() {
 				if _, own := ownKeys[k]; !own {
 					if _, occupied := keysOfType[k]; occupied {
@@ -409,6 +421,45 @@ func (api *API) collectStructKeys(structType reflect.Type, usedKeys map[string]s
 	}
 
 	return nil
+}
+
+// collectValueKeys adds the keys that the types of the given value can write into the map that the value is inlined
+// into: the keys of a struct type (see collectStructKeys) and, for every inlined interface inside that holds a value,
+// the type code and the keys of the implementation. Members with a JSON codec of their own contribute nothing that is
+// known.
+func (api *API) collectValueKeys(value reflect.Value, keys map[string]struct{}, depth ...int) {
+	if len(depth) > maxDecodeDepth {
+		return
+	}
+	for value.Kind() == reflect.Ptr || value.Kind() == reflect.Interface {
+		if value.IsNil() {
+			return
+		}
+		if value.Kind() == reflect.Interface {
+			keys[keyType] = struct{}{}
+		}
+		if hasJSONCodec(value.Type()) {
+			return
+		}
+		value = value.Elem()
+	}
+	valueType := value.Type()
+	if hasJSONCodec(valueType) || valueType.Kind() != reflect.Struct || valueType == timeType || valueType == bigIntPtrType.Elem() {
+		return
+	}
+
+	// (an error means that the type has no map form: the encoder reports it)
+	_ = api.collectStructKeys(valueType, keys)
+
+	structFields, err := api.getStructFields(valueType)
+	if err != nil {
+		return
+	}
+	for _, sField := range structFields {
+		if (sField.isEmbedded && !sField.settings.inlined) || (sField.settings.inlined && sField.settings.ts.fieldKey == nil) {
+			api.collectValueKeys(value.Field(sField.index), keys, append(depth, 0)...)
+		}
+	}
 }
 
 // setUniqueKey sets the key of the map form of a struct. A key that is taken already (by the type code of the struct,
